@@ -142,7 +142,7 @@ struct SIMDVector {
     FASTOR_INLINE SIMDVector<T,ABI> shift(FASTOR_INDEX i) {
         SIMDVector<T,ABI> out;
         std::fill(out.value,out.value+out.Size,static_cast<T>(0));
-        std::copy(value,value+Size, out.value+i);
+        std::copy(value,value+Size-i, out.value+i);
         return out;
     }
     FASTOR_INLINE T sum() {
